@@ -13,7 +13,7 @@ META = {
     "design_ref": "5/C15",
     "coq_targets": ["Props/Properties_C15.vo", "Crash/Check.vo"],
     "coq_files": ["Crash/Model.v", "Crash/Check.v", "Crash/Proofs.v", "Crash/Inter.v", "Props/Properties_C15.v", "Gen/CrashConsts.v"],
-    "theorems": ["C15_available_readable", "C15_checked_point_is_a_crash_point", "C15_interleaved_partial", "C15_interleaved_refuted"],
+    "theorems": ["C15_available_readable", "C15_unlocked_available_readable", "C15_bad_rollback_is_tombstoned", "C15_checked_point_is_a_crash_point", "C15_interleaved_partial", "C15_interleaved_refuted"],
     "technique": "Coq proof by invariant over all histories and all crash points of a step-level shard model (metabase x blob storage x "
                  "write-cache, every operation a sequence of atomic component steps in source order) + differential tie: the real shard is "
                  "stopped at every component-call boundary (directory snapshots of one run, a sample repeated by killing a real child process "
@@ -51,7 +51,7 @@ def run(ctx):
         hs = [v["history"] for v in rp.get("violations", []) if "history" in v]
         cases = ctx.run_json([binp, "run", "1000000"], input="\n".join(json.dumps(h) for h in hs) + "\n")
     else:
-        nh, nchild = (16, 8) if ctx.tier == "quick" else (400, 400)
+        nh, nchild = (16, 8) if ctx.tier == "quick" else (150, 100)
         cases = ctx.run_json([binp, "c15", str(nh), str(nchild)], timeout=3000)
     if not model:
         ctx.tie(False)
